@@ -265,8 +265,12 @@ def main():
     ap.add_argument("--max", type=int, default=0)
     ap.add_argument("--stride", type=int, default=1)
     ap.add_argument("--out", default="")
+    ap.add_argument("--match", default="", help="regular expression on the mutant id (re-run single mutants)")
     a = ap.parse_args()
     muts = generate(a.prop, a.func, a.kind)
+    if a.match:
+        import re
+        muts = [m for m in muts if re.search(a.match, m["id"])]
     if a.stride > 1:
         muts = muts[::a.stride]
     if a.max:
